@@ -34,6 +34,15 @@ class Arg:
         return f'Arg({self.key!r},{self.cid})'
 
 
+class _LookupFailed(KeyError):
+    pass
+
+
+EXC_CLASSES = {'HarnessError': HarnessError, 'KeyError': KeyError, 'LookupSubclass': _LookupFailed, 'StopIteration': StopIteration,
+               'StopAsyncIteration': StopAsyncIteration, 'TimeoutError': TimeoutError, 'ValueError': ValueError,
+               'RuntimeError': RuntimeError, 'OSError': OSError}
+
+
 def gen(rng, flavour):
     """flavour: c04 | c09 | c10 | c11"""
     cfg = {'bt': BT, 'size': rng.randint(1, 5), 'conc': rng.randint(1, 3),
@@ -94,6 +103,8 @@ def gen(rng, flavour):
             c['block'] = rng.choice([BT / 2, BT + cfg['bdur'], R + BT / 4 if R else 2 * BT, R / 2 if R else BT, 2 * R + 3 * BT])
         cfg['blocked_loop'] = True
     # the batch function may fail *after* it has yielded every result (while closing its connection, say)
+    if flavour == 'c04' and rng.random() < 0.4:
+        cfg['exc_class'] = rng.choice(sorted(EXC_CLASSES))
     cfg['raise_end'] = rng.choice([None, None, None, 'HarnessError', 'ConnectionError', 'TimeoutError']) \
         if flavour in ('c04', 'c10') else None
     muts = []
@@ -163,7 +174,12 @@ class BatcherHarness:
                                 sk = others[u % len(others)]
                                 emit('yield', b, sk, 'val', u)
                                 yield sk, ('stolen', b, u)
-                        out = HarnessError(k, b, u) if bh == 'exc' else (k, b, a.cid, u)
+                        if bh == 'exc':
+                            # the yielded failure may be of any Exception class (a per-item `except Exception as e: yield k, e`)
+                            out = EXC_CLASSES[cfg.get('exc_class', 'HarnessError')](k, b, u)
+                            out.hx = (k, b, u)          # (OSError and its subclasses rearrange their args)
+                        else:
+                            out = (k, b, a.cid, u)
                         emit('yield', b, k, 'exc' if bh == 'exc' else 'val', u)
                         yield k, out
                         if bh == 'twice':
@@ -227,9 +243,18 @@ class BatcherHarness:
                             else:
                                 r = await invoke(c, cid)
                             emit('ret', cid, 'val', r)
-                        except (HarnessError, ConnectionError, TimeoutError) as e:
+                        except Exception as e:
+                            src = e.__cause__ or e.__context__
                             if e.args[:1] == ('after the last result',):
                                 emit('ret', cid, 'batch_end_error', (type(e).__name__, e.args[1]))
+                            elif getattr(e, 'hx', False):
+                                emit('ret', cid, 'exc', e.hx)
+                            elif isinstance(e, RuntimeError) and isinstance(src, (StopIteration, StopAsyncIteration)) \
+                                    and getattr(src, 'hx', False):
+                                # a StopIteration cannot travel through a future or a coroutine as itself (PEP 479): the
+                                # caller is answered with a RuntimeError that carries the yielded instance
+                                emit('ret', cid, 'exc', src.hx)
+                                emit('note', 'stop_iteration_carried', cid)
                             elif isinstance(e, HarnessError):
                                 emit('ret', cid, 'exc', e.args)
                             elif isinstance(e, TimeoutError):
